@@ -210,7 +210,8 @@ fn alternatives(class: &str) -> Vec<(String, Option<String>)> {
         "memseg" => vec![missing("MISSING"), missing("M")],
         "rl" => vec![missing("MISSING"), missing("NO_COMPU_METHOD"), missing("CM")],
         "obj-iq" => vec![missing("MISSING"), ok("NO_INPUT_QUANTITY"), ok("AX"), ok("I"), missing("TM"), missing("CM")],
-        "obj" => vec![missing("MISSING"), ok("AX"), ok("M"), ok("I"), missing("TM"), missing("NO_INPUT_QUANTITY")],
+        // (outside a typedef used as a structure component the prefix THIS. has no meaning: an ordinary name, and there is no such object)
+        "obj" => vec![missing("MISSING"), ok("AX"), ok("M"), ok("I"), missing("TM"), missing("NO_INPUT_QUANTITY"), missing("THIS.comp"), missing("THIS.nope")],
         // TC is used as a component of TS (which has components comp and tc) and not directly by an INSTANCE
         "obj-this" => vec![missing("MISSING"), ok("AX"), ok("THIS.comp"), ok("THIS.tc"), ("THIS.nope".to_string(), Some("nope".to_string())), ("THIS.onlyone".to_string(), Some("onlyone".to_string()))],
         "typedef" => vec![missing("MISSING"), ok("TA"), ok("TC"), missing("M")],
